@@ -56,6 +56,11 @@ Proof. intros H o. unfold flip. destruct o; apply H. Qed.
 Lemma safe_bind_flip {B} (k : bool -> R B) (Q : B -> Prop) : (forall b, safe (k b) Q) -> safe (bind flip k) Q.
 Proof. intros H. eapply safe_bind; [apply (safe_flip top); intros; exact I|]. intros a _. apply H. Qed.
 
+Lemma safe_bind_guess {B} (g : bool) (k : bool -> R B) (Q : B -> Prop) : (forall b, safe (k b) Q) -> safe (bind (guess g) k) Q.
+Proof.
+  intros H. unfold guess. apply safe_assoc. apply safe_bind_flip. intros c. apply (H (if c then g else negb g)).
+Qed.
+
 Lemma safe_check (Q : unit -> Prop) : Q tt -> safe check Q.
 Proof. intros H. unfold check. apply safe_bind_flip. intros [|]; [apply safe_ret; exact H|apply safe_fail]. Qed.
 
@@ -189,6 +194,7 @@ Ltac safe_step :=
   | |- safe (bind check _) _ => apply safe_bind_check
   | |- safe (bind fail _) _ => apply safe_bind_fail
   | |- safe (bind flip _) _ => apply safe_bind_flip; intros ?
+  | |- safe (bind (guess _) _) _ => apply safe_bind_guess; intros ?
   | |- safe (bind (ret _) _) _ => apply safe_bind_ret
   | |- safe (bind (need _) _) _ => apply safe_bind_need; [try assumption; try reflexivity|]
   | |- safe (bind (if ?c then _ else _) _) _ => destruct c eqn:?
@@ -525,6 +531,13 @@ Lemma hst_flip {S B} (t : S) (k : bool -> M S B) (Q : B -> S -> Prop) (E : S -> 
   (forall c, hoare (st t) (k c) Q E) -> hoare (st t) (bind flip k) Q E.
 Proof. intros H s o ->. unfold bind, flip. destruct o as [|c o']; [exact (H true t [] eq_refl)|exact (H c t o' eq_refl)]. Qed.
 
+Lemma hst_guess {S B} (t : S) (g : bool) (k : bool -> M S B) (Q : B -> S -> Prop) (E : S -> Prop) :
+  (forall c, hoare (st t) (k c) Q E) -> hoare (st t) (bind (guess g) k) Q E.
+Proof.
+  intros H s o ->. unfold bind, guess, bind, flip, ret.
+  destruct o as [|c o']; [exact (H (if true then g else negb g) t [] eq_refl)|exact (H (if c then g else negb g) t o' eq_refl)].
+Qed.
+
 Lemma hst_check {S B} (t : S) (k : unit -> M S B) (Q : B -> S -> Prop) (E : S -> Prop) :
   E t -> hoare (st t) (k tt) Q E -> hoare (st t) (bind check k) Q E.
 Proof.
@@ -585,7 +598,7 @@ Proof.
   - apply safe_ret. intros oe [].
   - assert (Ht : forall oe, In oe t -> exists e, oe = Some e /\ all_true (e_a05 e) = true)
       by (intros; apply Hl; right; assumption).
-    apply safe_bind_flip. intros [|].
+    apply safe_bind_guess. intros [|].
     + eapply safe_bind; [apply IH; exact Ht|]. intros r Hr. apply safe_ret.
       intros oe [<-|Hin]; [left; reflexivity|right; apply Hr; exact Hin].
     + unfold need_control. apply safe_bind_need; [apply (ctl_of _ _ W Hna)|].
@@ -621,11 +634,11 @@ Proof.
   assert (Hc0 : exists c0, (match es with [] => ret CFwd | None :: _ => crash | Some e :: _ => ret (e_cat e) end : M batch cat) = ret c0).
   { destruct es as [|[e|] t]; eauto. destruct (Hes' None) as (? & ? & _); [left; reflexivity|discriminate]. }
   destruct Hc0 as (c0 & ->). apply hst_ret_bind.
-  destruct (last_some es (mkentry CFwd 0 false false false false false false [])) as (le & ->).
+  destruct (last_some es (mkentry CFwd 0 false false false false false false [] false)) as (le & ->).
   { intros x Hx. destruct (Hes' x Hx) as (e & -> & _). eauto. }
   apply hst_ret_bind.
   apply hst_need; [apply (ctl_of _ _ W Hna)|].
-  apply hst_flip. intros hasD. apply hst_flip. intros hasC. apply hst_flip. intros chk.
+  apply hst_guess. intros hasD. apply hst_guess. intros hasC. apply hst_flip. intros chk.
   eapply hst_ro; [apply (header_of_safe _ _ W)|exact (bwf_wf_batch _ _ W1)|]. intros ? ->.
   set (es1 := if hasD then es else es ++ [offset_entry c0 (if chk then 27 else 37)]).
   set (es2 := if hasC then es1 else es1 ++ [offset_entry c0 (if chk then 22 else 32)]).
